@@ -217,6 +217,86 @@ impl Check for C20Binary {
     }
 }
 
+/// An input that opens but cannot be read (stdin is a directory: EISDIR; a file argument
+/// /proc/self/mem after a good file: EIO) x policies x pipelines: the executable must exit
+/// with a non-zero status and say why on standard error - a read error is not end of input.
+#[derive(Clone, Debug, Serialize, Deserialize)]
+pub struct CaseUnreadable {
+    pub args: Vec<String>,
+    /// 0 stdin is a directory, 1 good file then /proc/self/mem
+    pub source: u8,
+}
+
+fn run_unreadable(c: &CaseUnreadable) -> CaseResult {
+    let Some(bin) = jawk_bin() else { return CaseResult::Discard("JAWK_BIN not set".into()) };
+    let dir = crate::fifo::tmp_dir();
+    let mut cmd = Command::new(&bin);
+    cmd.args(&c.args).stdout(Stdio::piped()).stderr(Stdio::piped());
+    let good = dir.join(format!("good-{:?}.json", std::thread::current().id()).replace(['(', ')'], ""));
+    let mut expect_rows = false;
+    if c.source == 0 {
+        match std::fs::File::open(&dir) {
+            Ok(f) => {
+                cmd.stdin(Stdio::from(f));
+            }
+            Err(e) => return CaseResult::Discard(e.to_string()),
+        }
+    } else {
+        if std::fs::write(&good, b"{\"a\":1}\n{\"a\":2}\n").is_err() {
+            return CaseResult::Discard("cannot write temp file".into());
+        }
+        cmd.arg(&good).arg("/proc/self/mem").stdin(Stdio::null());
+        expect_rows = true;
+    }
+    let out = match cmd.output() {
+        Ok(o) => o,
+        Err(e) => return CaseResult::Discard(format!("cannot spawn: {}", e)),
+    };
+    let _ = std::fs::remove_file(&good);
+    let _ = expect_rows;
+    if out.status.code() == Some(0) {
+        return CaseResult::Fail(format!("the input could not be read but the executable exited with status 0 (stdout {}, stderr {}) [args {:?} source {}]", esc_trunc(&out.stdout, 200), esc_trunc(&out.stderr, 200), c.args, c.source));
+    }
+    if out.status.code().is_none() {
+        return CaseResult::Fail(format!("the executable was killed by a signal [args {:?}]", c.args));
+    }
+    if out.stderr.is_empty() {
+        return CaseResult::Fail(format!("exit status {:?} without any message on standard error [args {:?}]", out.status.code(), c.args));
+    }
+    CaseResult::Pass(Info::new(true).class(if c.source == 0 { "stdin_is_a_directory" } else { "file_read_error_after_good_file" }).obs(json!({"args": c.args, "exit": out.status.code(), "stderr": esc_trunc(&out.stderr, 120)})))
+}
+
+pub struct C20Unreadable;
+impl DynCheck for C20Unreadable {
+    fn name(&self) -> &'static str {
+        "C20.unreadable_input"
+    }
+    fn replay(&self, case: &serde_json::Value) -> Result<CaseResult, String> {
+        let c: CaseUnreadable = serde_json::from_value(case.clone()).map_err(|e| e.to_string())?;
+        Ok(run_unreadable(&c))
+    }
+    fn run(&self, ctx: &mut Ctx) {
+        let pipes: Vec<Vec<&str>> = vec![vec![], vec!["--select=.a=v"], vec!["--sort-by=.a"], vec!["--unique"], vec!["--merge"], vec!["--group-by=(stringify .a)"], vec!["--select=.a=v", "--output-style=csv"], vec!["--take=5"], vec!["--sort-by=.a", "--take=1"]];
+        let mut cases = Vec::new();
+        for pol in POLICIES {
+            for p in &pipes {
+                for source in 0..2u8 {
+                    let mut args: Vec<String> = p.iter().map(|x| x.to_string()).collect();
+                    args.push(format!("--on-error={}", pol));
+                    cases.push(CaseUnreadable { args, source });
+                }
+            }
+        }
+        let n = cases.len() as u64;
+        let cases = std::sync::Arc::new(cases);
+        run_enum(ctx, "C20.unreadable_input", n, "4 policies x 9 pipelines x {stdin is a directory, unreadable file after a good file}", move |idx| {
+            let c = cases[idx as usize].clone();
+            let r = run_unreadable(&c);
+            (Box::new(move || vjson(&c)), r)
+        });
+    }
+}
+
 pub fn run_all(ctx: &mut Ctx) {
     if jawk_bin().is_none() {
         ctx.inconclusive.push("JAWK_BIN is not set or does not exist (the check driver builds the executable)".into());
@@ -224,9 +304,11 @@ pub fn run_all(ctx: &mut Ctx) {
     }
     ctx.rule = "the real executable (built from the current tree) spawned with pipes on 0..8 generated values with garbage between them x 4 --on-error policies x 9 valid pipelines / 18 invalid configurations (library-level and clap-level) x row separators with and without a line feed x stdout = {pipe read to the end, pipe whose read end is closed before the spawn, /dev/full}. Oracle: exit 0 iff the in-process run returns Ok and every output byte could be written; on success stdout and stderr are byte-identical to the library's streams (so --on-error=stderr reports are on standard error only); on failure exit != 0 with a message on standard error, and nothing on standard output for an invalid configuration. non-trivial = a failure case, or --on-error=stderr with noise".into();
     ctx.assumptions = vec!["the in-process run of the same arguments is the reference for the data (the library's behaviour is the subject of C01-C19)".into(), "no timing-dependent early-close variant (it would race)".into()];
+    ctx.rule.push_str(". C20.unreadable_input: an input that opens but fails on read (stdin is a directory; /proc/self/mem after a good file) under every policy and 9 pipelines: non-zero exit status and a message on standard error");
     C20Binary.run(ctx);
+    DynCheck::run(&C20Unreadable, ctx);
 }
 
 pub fn checks() -> Vec<Box<dyn DynCheck>> {
-    vec![Box::new(C20Binary)]
+    vec![Box::new(C20Binary), Box::new(C20Unreadable)]
 }
